@@ -10,12 +10,21 @@ cp $W/seed/patch.diff $OUT/patch.diff; cp $W/seed/meta.json $OUT/agent_meta.json
 export CARGO_TARGET_DIR=$W/target CARGO_NET_OFFLINE=true
 cd $W
 git diff --quiet -- impl src && git apply seed/patch.diff   # make sure the patch is applied
-demo() { cargo test --offline --features full --test seed_demo 2>&1 | grep -E "^test result" | tail -1; }
+demo() { O=$(cargo test --offline --features full --test seed_demo 2>&1); R=$(echo "$O" | grep -E "^test result" | tail -1); [ -z "$R" ] && R="DOES NOT COMPILE: $(echo "$O" | grep -E "^error" | head -2 | tr '\n' ' ')"; echo "$R"; }
 WITH=$(demo)
 git apply -R $OUT/patch.diff
 WITHOUT=$(demo)
 git apply $OUT/patch.diff
-SUITE=$(cargo test --workspace --no-fail-fast --offline 2>&1 | grep -E "^test result|^test .* FAILED" | grep -v "^test result: ok" | grep -v seed_demo | tr '\n' ';')
+# the repository suite is run without the demo scaffolding (the demo is expected to fail / not compile with the patch)
+cp Cargo.toml Cargo.toml.seedbak; mv tests/seed_demo.rs /tmp/seed_demo_$ID.rs 2>/dev/null
+python3 - <<'PY'
+import re
+s = open("Cargo.toml").read()
+s = re.sub(r'\n\[\[test\]\]\s*\nname = "seed_demo"[^\[]*', "\n", s)
+open("Cargo.toml", "w").write(s)
+PY
+SUITE=$(cargo test --workspace --no-fail-fast --offline 2>&1 | grep -E "^test result|^test .* FAILED|^error" | grep -v "^test result: ok" | tr '\n' ';')
+mv Cargo.toml.seedbak Cargo.toml; mv /tmp/seed_demo_$ID.rs tests/seed_demo.rs 2>/dev/null
 echo "demo with patch:    $WITH"; echo "demo without patch: $WITHOUT"; echo "suite non-ok lines with patch: $SUITE"
 RES=""
 for P in "$@"; do
